@@ -232,6 +232,46 @@ func (p *Prog) resolveType(pkgPath, expr string) types.Type {
 	}
 	tv, err := types.Eval(p.fset, pk, token.NoPos, expr)
 	if err != nil || !tv.IsType() {
+		// qualified names: imports are file-scoped, so resolve "*pkg.T" / "[]pkg.T" / "pkg.T" by hand
+		switch {
+		case strings.HasPrefix(expr, "*"):
+			if t := p.resolveType(pkgPath, expr[1:]); t != nil {
+				return types.NewPointer(t)
+			}
+			return nil
+		case strings.HasPrefix(expr, "[]"):
+			if t := p.resolveType(pkgPath, expr[2:]); t != nil {
+				return types.NewSlice(t)
+			}
+			return nil
+		}
+		if k := strings.Index(expr, "."); k > 0 {
+			pn, tn := expr[:k], expr[k+1:]
+			var found types.Type
+			seen := map[*types.Package]bool{}
+			var visit func(q *types.Package, depth int)
+			visit = func(q *types.Package, depth int) {
+				if q == nil || seen[q] || found != nil || depth > 3 {
+					return
+				}
+				seen[q] = true
+				if q.Name() == pn {
+					if obj := q.Scope().Lookup(tn); obj != nil {
+						if _, ok := obj.(*types.TypeName); ok {
+							found = obj.Type()
+							return
+						}
+					}
+				}
+				for _, imp := range q.Imports() {
+					visit(imp, depth+1)
+				}
+			}
+			for _, imp := range pk.Imports() {
+				visit(imp, 0)
+			}
+			return found
+		}
 		return nil
 	}
 	return tv.Type
